@@ -40,7 +40,20 @@ def roundtrip(obj, protocol):
     os.close(fd)
     os.unlink(path)
     PATH_FORM[0] += 1
-    form = PATH_FORM[0] % 3
+    form = PATH_FORM[0] % 4
+    if form == 3:       # a target on ANOTHER file system than the temporary directory (a tmpfs), when the machine has one
+        shm = "/dev/shm"
+        if os.path.isdir(shm) and os.access(shm, os.W_OK) and os.stat(shm).st_dev != os.stat(tempfile.gettempdir()).st_dev:
+            fd2, other = tempfile.mkstemp(suffix=".pkl", dir=shm)
+            os.close(fd2)
+            os.unlink(other)
+            try:
+                save(obj, filename=other, pickle_protocol=protocol)
+                return load(filename=other)
+            finally:
+                if os.path.exists(other):
+                    os.unlink(other)
+        form = 0
     cwd = os.getcwd()
     try:
         if form == 0:
@@ -262,14 +275,14 @@ def run(out: Outcome) -> None:
     i = 0
     for cls in dets.CLASSES:
         for with_cb in (False, True):
-            for proto in (protos if thorough else [protos[i % len(protos)]]):
+            for proto in (protos if thorough else [protos[(i + out.seed) % len(protos)]]):
                 concept_case(out, rng, cls, with_cb, proto, thorough)
             i += 1
     for cls in DIST + STAT:
-        for proto in (protos if thorough else [protos[i % len(protos)]]):
+        for proto in (protos if thorough else [protos[(i + out.seed) % len(protos)]]):
             batch_case(out, rng, cls, proto)
         i += 1
-    for proto in (protos if thorough else [protos[i % len(protos)], pickle.HIGHEST_PROTOCOL]):
+    for proto in (protos if thorough else [protos[(i + out.seed) % len(protos)], pickle.HIGHEST_PROTOCOL]):
         streaming_case(out, rng, proto)
     # callbacks on their own
     for cb in (HistoryConceptDrift(name="h"), PermutationTestDistanceBased(num_permutations=7, random_state=1, name="p"), ResetStatisticalTest(alpha=0.05, name="r")):
